@@ -39,12 +39,16 @@ func TextConsumer() Consumer {
 		}
 		b := buf.Bytes()
 
-		// If the buffer is empty, no need to unmarshal it, which causes a panic.
-		if len(b) == 0 {
-			return nil
+		if isNilPointer(data) {
+			return fmt.Errorf("nil pointer destination (%T) for TextConsumer", data)
 		}
 
 		if tu, ok := data.(encoding.TextUnmarshaler); ok {
+			// If the buffer is empty, no need to unmarshal it, which causes a panic.
+			if len(b) == 0 {
+				return nil
+			}
+
 			err := tu.UnmarshalText(b)
 			if err != nil {
 				return fmt.Errorf("text consumer: %v", err)
@@ -76,6 +80,9 @@ func TextProducer() Producer {
 
 		if data == nil {
 			return errors.New("no data given to produce text from")
+		}
+		if isNilPointer(data) {
+			return fmt.Errorf("nil pointer data (%T) given to produce text from", data)
 		}
 
 		if tm, ok := data.(encoding.TextMarshaler); ok {
